@@ -68,13 +68,13 @@ _T = {
 _DONE = sorted(_T)
 
 MORE = (" Further necessary conditions were added while building, each with the seeded change or refactoring that showed the need "
-        "(DESIGN.md 9.3, 9.8, 9.12 - 9.16: e.g. crash / interleaving sweeps over the extracted effect model, cache ownership, exact reference "
+        "(DESIGN.md 9.3, 9.8, 9.12 - 9.17: e.g. crash / interleaving sweeps over the extracted effect model, cache ownership, exact reference "
         "lookup, no state left by an evaluation, lossless source text, readers are read-only, mypy-checked kinds of names (NewTypes) at every "
         "analysis call, pinned pre-images of a value table by abstract evaluation, sibling call sites, announced = accepted codec types, "
         "the committed map restricted to present blobs, propositional guards on the CFG (a read only where the name is implied to exist, a full commit skips the copy only when the record vouches for it), pinned outputs of the signature combiner, arguments forwarded whole, private things found by role so that renames and moves raise no alarm). Rules of another property that are necessary conditions of this one as well are "
         "run under it (prefixed).")
 
-CHECKS = [dict(property_id=p, text="Static verdict on: " + _T[p][0] + "." + MORE + WHY, design_ref=f"DESIGN.md section 4 ({p}) and sections 9.3 / 9.8 / 9.12 - 9.16", note=NOTE,
+CHECKS = [dict(property_id=p, text="Static verdict on: " + _T[p][0] + "." + MORE + WHY, design_ref=f"DESIGN.md section 4 ({p}) and sections 9.3 / 9.8 / 9.12 - 9.17", note=NOTE,
                technique="static analysis: " + _T[p][1]) for p in sorted(_DONE)]
 
 _PENDING = "check under construction in this session; not claimed until it runs clean (see DESIGN.md)"
